@@ -401,7 +401,12 @@ def claim_vector_protocol(cx, res, kf):
             is_close = z3.And(z3.Not(werr), wsome, z3.Or(wb == ord(")"), wb == ord("]")))
             if out[0] == "ok" and len(evs) == 1:
                 seen["close"] += 1
-                res.must_be_unsat(pc + [z3.Not(z3.And(is_close, wb == term))], "%s: vector closed by something other than its own closer" % fname, onm)
+                # (returning the elements at the end of input is as good as an EOF error here: the caller's end_seq, claimed
+                # below, reports the end of input)
+                at_eof = z3.And(z3.Not(werr), z3.Not(wsome))
+                if res.solve(pc + [at_eof])[0] == z3.sat:
+                    seen["eof"] += 1
+                res.must_be_unsat(pc + [z3.Not(z3.Or(z3.And(is_close, wb == term), at_eof))], "%s: vector closed by something other than its own closer" % fname, onm)
             elif out == ("err", "MismatchedParenthesis"):
                 seen["mismatch"] += 1
                 res.must_be_unsat(pc + [z3.Not(z3.And(is_close, wb != term))], "%s: MismatchedParenthesis without a wrong closer" % fname, onm)
@@ -655,7 +660,7 @@ def claim_lockstep_top(cx, res, kf):
 
     def onm(m):
         for text in (b"a b", b"(a . b ) c", b"'x", b"#u8(1 2) y", b"#(a) b", b"[a]", b")", b"(a", b"'", b"#(", b"1 (2 3) \"s\" #\\c ;x\n z",
-                     b"`(,a ,@b)", b"(" * 130, b"#nil ()", b""):
+                     b"`(,a ,@b)", b"(" * 130, b"#nil ()", b"", b"#(a b", b"#(", b"[a", b"#u8(1 2", b"(a . ", b"#(a (b", b"'#("):
             v = RP.parse(text, "default", "slice", "value")
             d = RP.parse(text, "default", "slice", "datum")
             res.replays += 2
